@@ -464,7 +464,7 @@ def run(ctx, res):
         "allocation failure is outside the fault model",
         "file_close completes; pwrite writes what it reports",
     ]
-    run_storage_rules(prog, res, ("TIFF-FINALISE", "STOP-CLOSES", "FD-TYPESTATE"), "FINALISE-SIM",
+    run_storage_rules(prog, res, ("TIFF-FINALISE", "STOP-CLOSES", "FD-TYPESTATE", "STALE-CURSOR"), "FINALISE-SIM",
                       kinds=("tiff", "tiff-json"))
     sample_format_exhaustive(prog, res)
     header_constants(prog, res)
